@@ -286,9 +286,11 @@ VDEC = [
  ("v_palette_color", "dec_palette", "color", "ColorPalette::color(i) is the entry stored for index i, None if absent", ["palette::ColorPalette::color"]),
  ("v_validate_indexed", "dec_palette", "validate_indexed_pixels", "validate_indexed_pixels: Ok iff EVERY pixel index is a palette entry (any buffer length, any - sparse - palette)", ["palette::ColorPalette::validate_indexed_pixels"]),
  ("v_dec_palette", "dec_palette", "palette::parse_chunk", "palette::parse_chunk for EVERY payload and ANY index range (incl. 0..=u32::MAX): exactly the indices first..=last are present with stored RGBA and name (iff flag); Err iff last<first or an entry is short / bad UTF-8", ["palette::parse_chunk"]),
+ ("v_dec_old04", "dec_palette", "parse_old_chunk_04", "legacy palette chunk 0x0004 for EVERY payload and packet count: Ok iff all packets fit; the skip bytes accumulate, count 0 = 256, a later packet overrides an earlier one; entry i = the RGB triple that defines it, alpha 255, no name", ["palette::parse_old_chunk_04"]),
+ ("v_dec_old11", "dec_palette", "parse_old_chunk_11", "legacy palette chunk 0x0011 for EVERY payload: as 0x0004 with every component < 64 required and scaled 6 -> 8 bit (4c + c/16)", ["palette::parse_old_chunk_11", "palette::scale_6bit_to_8bit"]),
 ]
 for _id, _unit, _fn, _claim, _fns in VDEC:
-    V(_id, _unit, _claim + " - " + RC if _unit != "dec_palette" or _fn == "palette::parse_chunk" else _claim, _fns, fn=_fn, witness="x_decoder_contracts")
+    V(_id, _unit, _claim + " - " + RC if _unit != "dec_palette" or _fn in ("palette::parse_chunk", "parse_old_chunk_04", "parse_old_chunk_11") else _claim, _fns, fn=_fn, witness="x_decoder_contracts")
 VDEC_IDS = [v[0] for v in VDEC]
 
 BLEND_LEAVES = ["k_mul_un8", "k_div_un8", "k_blend8"] + ["k_ch_" + m for m in ["multiply", "screen", "overlay", "darken", "lighten", "color_dodge",
@@ -355,7 +357,7 @@ prop("C09", "proof", ["v_compute_parents", "v_from_vec", "v_is_visible", "v_fram
      "compute_parents is proved by Verus on the real text for ALL layer sequences (any length, any depth) whose first level is 0 - the forests of the property are a subset; from_vec establishes that precondition; Layer::is_visible is proved equal to 'own flag and all ancestors' flags' for every table satisfying the parent contract. Layer::parent and the compositing gate are exhaustively executed for every forest of up to 6 (quick) / 8 (thorough) layers and every flag assignment.")
 prop("C10", "proof", UD_V + ["v_dec_userdata"] + UD_DEC + ["x_decoder_contracts", "x_userdata_exhaustive", "x_roundtrip_structure"],
      "The attachment rule is a Verus contract on the REAL code, extracted each run, for unbounded tables and chunk sequences: ParseInfo::add_user_data attaches a record to the entity named by the current context and changes nothing else (add_layer / add_cel / add_tags / add_slice / set_tag_user_data / CelsData::cel_mut likewise), and parse_frame - the chunk dispatch - updates that context per chunk kind exactly by the rule (fold over the chunk sequence; ignorable chunks and the new palette leave it untouched, tags only count in frame 0, a legacy palette selects the sprite). Assumed in that unit: the decoders' results (their own contracts are the dec_* units) and the chunk framing. The same rule is additionally executed for all admissible chunk sequences up to length 5 / 6 through the public API; the user-data chunk decoder is a Verus (unbounded) and Kani (fixed shapes) contract.")
-prop("C11", "proof", ["v_dec_palette", "v_palette_color", "v_validate_indexed", "v_rawpixels_validate", "v_scale_6bit"] + PAL_DEC + ["k_validate_indexed", "x_decoder_contracts", "x_palette_precedence", "x_indexed_needs_palette"],
+prop("C11", "proof", ["v_dec_old04", "v_dec_old11", "v_dec_palette", "v_palette_color", "v_validate_indexed", "v_rawpixels_validate", "v_scale_6bit"] + PAL_DEC + ["k_validate_indexed", "x_decoder_contracts", "x_palette_precedence", "x_indexed_needs_palette"],
      "6-bit scaling proved for all u8; palette chunk decoders against the layout on fixed sizes; pixel-index validation on a bounded shape; precedence between chunks and the load failure for incomplete palettes are bounded-exec.")
 prop("C13", "exploration", READER + ["k_check_chunk_bytes", "v_check_chunk_bytes", "v_dec_layer", "v_dec_tags", "v_dec_cel", "x_truncation"],
      "Reader primitives return an error value whenever fewer bytes remain than the field needs (contract, every position of a fixed-size cursor); that declared counts drive the reads is glue: every cut offset of generated and corpus files is executed.")
